@@ -256,13 +256,15 @@ func (fs *Filespace) WriteFile(destPath string, data []byte, filemode os.FileMod
 		return err
 	}
 	dir.Lock()
-	defer dir.Unlock()
 	if node, err = dir.getNode(destNodeName); err != nil {
 		var datacopy = make([]byte, len(data))
 		copy(datacopy, data)
 		file = NewFile(destNodeName, filesystem.DefaultUnixFileMode, time.Now(), datacopy)
-		return dir.addNode(file)
+		err = dir.addNode(file)
+		dir.Unlock()
+		return err
 	}
+	dir.Unlock()
 	if file, ok = node.(*File); !ok {
 		return goaterr.Errorf("Node %s must be a file", destPath)
 	}
